@@ -41,7 +41,7 @@ def main():
         "engines": [{"name": "symnp", "path": "symnp/", "serves_properties": sorted(CHECKS), "kind_free_text": "symbolic execution of felupe's real NumPy code on dtype=object arrays of hash-consed symbolic scalars; rational normal form; SMT-LIB2 to z3/cvc5; path explorer; float replay"}],
         "checks": checks,
         "not_applicable": na,
-        "notes": "fix: commits in /repo (genuine defects found by these checks): " + "; ".join(FIX_COMMITS) + ". Known findings: known_findings.json. Exit codes: 0 ok, 1 violation, 3 inconclusive/harness error.",
+        "notes": "fix: commits in /repo (genuine defects found by these checks): " + "; ".join(FIX_COMMITS) + ". Known findings: known_findings.json (status known: C16 revolve orientation, reported as KNOWN-FINDING with exit 0; status fixed entries suppress nothing). Exit codes: 0 ok, 1 violation, 3 inconclusive/harness error.",
     }
     with open(os.path.join(HERE, "MANIFEST.json"), "w") as f:
         json.dump(m, f, indent=1)
